@@ -138,6 +138,20 @@ func c20Mappings(level int) []c20Mapping {
 			{ID: ids[2], Package: "example.com/m/b/types", Output: "b/types/z.go"}, {ID: ids[3], Package: "example.com/m/b/types", Output: "b/types/w.go"}}
 		return c
 	}})
+	// one output file named by two spellings of its path: both schemas' code must land in it
+	ms = append(ms, c20Mapping{"same-output-two-spellings", func(ids []string) genlab.Cfg {
+		c := base()
+		c.Mappings = []genlab.Mapping{{ID: ids[0], Package: "example.com/m/p", Output: "p/x.go"}, {ID: ids[1], Package: "example.com/m/p", Output: "./p/x.go"},
+			{ID: ids[2], Package: "example.com/m/q", Output: "q//z.go"}, {ID: ids[3], Package: "example.com/m/q", Output: "q/z.go"}}
+		return c
+	}})
+	// a third package that imports two packages whose paths end in the same element
+	ms = append(ms, c20Mapping{"two-same-last-elements-imported-by-third", func(ids []string) genlab.Cfg {
+		c := base()
+		c.Mappings = []genlab.Mapping{{ID: ids[0], Package: "example.com/m/main", Output: "main/a.go"}, {ID: ids[1], Package: "example.com/m/one/common", Output: "one/common/b.go"},
+			{ID: ids[2], Package: "example.com/m/two/common", Output: "two/common/c.go"}, {ID: ids[3], Package: "example.com/m/two/common", Output: "two/common/d.go"}}
+		return c
+	}})
 	// the passes that run once per generator (formatters) meet several output files: every file needs its own imports
 	ms = append(ms, c20Mapping{"own-files+extra-imports", func(ids []string) genlab.Cfg {
 		c := base()
@@ -405,6 +419,8 @@ func c20(ctx *Ctx) {
 						ctx.Run.Count("states_with_import_cycle_forced_by_the_mapping(not judged)", 1) // a reference cycle split over two packages cannot build in Go
 					} else if msg != "" && (strings.HasPrefix(u.name, "allof-ref") || strings.HasPrefix(u.name, "anyof-ref")) && strings.Contains(msg, "imported and not used") && ctx.Run.Listed("CROSS_PACKAGE_COMPOSITE_UNUSED_IMPORT") {
 						ctx.Run.Known("CROSS_PACKAGE_COMPOSITE_UNUSED_IMPORT", fmt.Sprintf("C20/%s: history %v: %s", name, h, trunc(msg, 200)), replay)
+					} else if msg != "" && mp.name == "two-same-last-elements-imported-by-third" && strings.Contains(msg, "common redeclared in this block") && ctx.Run.Listed("IMPORT_ALIAS_COLLISION") {
+						ctx.Run.Known("IMPORT_ALIAS_COLLISION", fmt.Sprintf("C20/%s: history %v: %s", name, h, trunc(msg, 200)), replay)
 					} else if msg != "" && sameDef && strings.Contains(msg, "Common redeclared") && ctx.Run.Listed("SAME_DEF_NAME_TWO_FILES_ONE_PACKAGE") {
 						ctx.Run.Known("SAME_DEF_NAME_TWO_FILES_ONE_PACKAGE", fmt.Sprintf("C20/%s: history %v: %s", name, h, trunc(msg, 200)), replay)
 					} else if msg != "" {
@@ -720,7 +736,7 @@ func c20ComposeRenamed(h []int, obs map[string]obsState, joint obsState) string 
 				return "output " + f + ": unexpected import " + k
 			}
 		}
-		if msg := relRename(render(want), render(gd)); msg != "" {
+		if msg := relRename(render(want), render(gd), true); msg != "" {
 			return "output " + f + ": " + msg
 		}
 	}
